@@ -459,4 +459,54 @@ theorem loopsCall_hasIntArr (s : Sig) (c : Call) (h : c.hasIntArr = false) : (lo
             rw [he]; simp
           exact hk' _ hm
 
+
+theorem lookup_none_of_not_key (junk : PDict) (k : String) (h : ∀ p ∈ junk, p.1 ≠ k) : junk.lookup k = none := by
+  induction junk with
+  | nil => rfl
+  | cons q t ih =>
+    obtain ⟨qk, qv⟩ := q
+    have hq : qk ≠ k := h (qk, qv) (by simp)
+    have : (k == qk) = false := by simp [Ne.symm hq]
+    simp only [List.lookup, this]
+    exact ih (fun p hp => h p (by simp [hp]))
+
+/-- `loops` forwards undeclared keywords (none called `axis`) untouched, behind the keywords of the call -/
+theorem loopsCall_append (s : Sig) (c : Call) (junk : PDict) (hj : ∀ p ∈ junk, p.1 ∉ s.params)
+    (hax : ∀ p ∈ c.kw ++ junk, p.1 ≠ "axis") :
+    loopsCall s { c with kw := c.kw ++ junk } = { loopsCall s c with kw := (loopsCall s c).kw ++ junk } := by
+  have haxk : ∀ p ∈ c.kw, p.1 ≠ "axis" := fun p hp => hax p (by simp [hp])
+  have haxj : ∀ p ∈ junk, p.1 ≠ "axis" := fun p hp => hax p (by simp [hp])
+  cases c with
+  | mk args kw =>
+    unfold loopsCall
+    cases args with
+    | cons a as =>
+      simp only [popAxis_eq kw haxk, popAxis_eq (kw ++ junk) hax]
+    | nil =>
+      cases hp : s.params with
+      | nil => rfl
+      | cons top ps =>
+        have htop : ∀ p ∈ junk, p.1 ≠ top := fun p hpj he => hj p hpj (by rw [hp, he]; simp)
+        have hjl : junk.lookup top = none := lookup_none_of_not_key junk top htop
+        simp only [List.lookup_append, hjl, Option.or_none]
+        cases hl : kw.lookup top with
+        | none => rfl
+        | some arg =>
+          simp only [PDict.erase, popAxis, List.filter_append]
+          have h1 : junk.filter (fun p => p.1 != top) = junk := by
+            apply List.filter_eq_self.2
+            intro q hq
+            simpa using htop q hq
+          have h2 : junk.filter (fun p => p.1 != "axis") = junk := by
+            apply List.filter_eq_self.2
+            intro q hq
+            simpa using haxj q hq
+          rw [h1, h2]
+
+
+theorem hasIntArr_append_left (c : Call) (junk : PDict) (h : ({ c with kw := c.kw ++ junk } : Call).hasIntArr = false) :
+    c.hasIntArr = false := by
+  simp only [Call.hasIntArr, Bool.or_eq_false_iff] at h ⊢
+  refine ⟨h.1, (hasIntArrKVs_false_iff _).2 fun p hp => (hasIntArrKVs_false_iff _).1 h.2 p (by simp [hp])⟩
+
 end Pyg
